@@ -919,7 +919,9 @@ func (e *CEnv) pkgOf(t types.Type) *types.Package {
 
 func (e *CEnv) idx(x ast.Expr) *Term {
 	v, t := e.eval(x)
-	v, t = materialize(v, types.Typ[types.Int])
+	if _, isC := v.(constV); isC {
+		v, t = materialize(v, types.Typ[types.Int])
+	}
 	_, signed, _ := intInfo(t)
 	return to64(v.(Scalar).T, signed)
 }
@@ -1073,6 +1075,31 @@ func (e *CEnv) evalCall(n *ast.CallExpr) (Value, types.Type) {
 			i := e.idx(n.Args[1])
 			ln := e.idx(n.Args[2])
 			return Scalar{p.strOfBytes(e.st, SliceV{Ref: s.Ref, Off: BVAdd(s.Off, i), Len: ln, Cap: ln, Elem: s.Elem})}, types.Typ[types.String]
+		case "unchanged":
+			// unchanged(s): the backing array of slice s holds the same elements as in the pre-state
+			v, _ := e.eval(n.Args[0])
+			s, ok := v.(SliceV)
+			if !ok || e.old == nil {
+				e.fail("unchanged needs a slice and a pre-state")
+			}
+			var cs []*Term
+			for _, l := range leavesOf(s.Elem) {
+				key := elemsKey(s.Elem, l.Path)
+				srt := SArr(SRef, SArr(SBV(64), l.Sort))
+				cs = append(cs, Eq(Select(p.heapCell(e.st, key, srt), s.Ref), Select(p.heapCell(e.old, key, srt), s.Ref)))
+			}
+			return Scalar{And(cs...)}, boolT
+		case "issub":
+			// issub(s, base, lo, hi): s is exactly base[lo:hi] (same backing array)
+			v, _ := e.eval(n.Args[0])
+			bv, _ := e.eval(n.Args[1])
+			s, ok1 := v.(SliceV)
+			b, ok2 := bv.(SliceV)
+			if !ok1 || !ok2 {
+				e.fail("issub needs slices")
+			}
+			lo, hi := e.idx(n.Args[2]), e.idx(n.Args[3])
+			return Scalar{And(Eq(s.Ref, b.Ref), Eq(s.Off, BVAdd(b.Off, lo)), Eq(s.Len, BVSub(hi, lo)))}, boolT
 		case "ite":
 			cnd := e.evalBoolArg(n.Args[0])
 			a, ta := e.eval(n.Args[1])
